@@ -53,6 +53,7 @@ type c12case struct {
 	setup    int  // 0 clean: the device is silent until the first return and a GetPrompt precedes the operation; 1 stale: the device shows its prompt on connect and nothing reads it; 2 shifted: prompt on connect, then a GetPrompt (which returns at the stale prompt and leaves its own answer behind)
 	host     string
 	weird    string // "" or the name of the out-of-domain twist that was applied
+	echoTail   int  // the device keeps back the last echoTail bytes of every echo for c12hold (0 = no)
 	statusLine bool // some event carries a prompt-like status line (in domain)
 	clean    bool   // built without any twist, from a clean queue, with questions no proper prefix of which matches their pattern, and with hidden inputs the device does not echo
 
@@ -174,13 +175,14 @@ func genC12(seed uint64, thorough bool) c12case {
 			// the input answers the previous question
 			switch {
 			case i == 0:
-				e.input = r.Pick([]string{"clear logging", "reload", "copy running-config startup-config", "write erase", "x"})
+				e.input = r.Pick([]string{"clear logging", "reload", "copy running-config startup-config", "write erase", "x",
+					"clear counters all", "reload in 100", "copy flash: tftp://10.0.0.1/aa", "clear access-list counters acl-foo"})
 			case prevQ == 2 || prevQ == 4:
 				e.hidden = true
 				e.devHidden = !r.Chance(1, 6)
 				e.input = c12secret(r)
 			default:
-				e.input = r.Pick([]string{"y", "yes", "n", "", "startup-config", "flash:/cfg.txt", "show clock"})
+				e.input = r.Pick([]string{"y", "yes", "n", "", "startup-config", "flash:/cfg.txt", "show clock", "all", "yess", "show access"})
 				if prevQ == -1 && e.input == "" {
 					e.input = "show clock"
 				}
@@ -307,7 +309,8 @@ func genC12(seed uint64, thorough bool) c12case {
 		}
 		longest = len(cs.host) + 90
 	case "send":
-		cs.cmd = r.Pick([]string{"show version", "show ip interface brief", "x", "ping 10.0.0.1 repeat 2"})
+		cs.cmd = r.Pick([]string{"show version", "show ip interface brief", "x", "ping 10.0.0.1 repeat 2",
+			"show access", "clear counters all", "ping 10.0.0.1 repeat 100", "show process cpu | i sss", "show ip bgp summ"})
 		cs.eager = r.Chance(1, 2)
 		cs.out = c12out(r, cs.nl, maxLines)
 		note(cs.out)
@@ -319,7 +322,10 @@ func genC12(seed uint64, thorough bool) c12case {
 	if r.Chance(1, 3) {
 		cs.depth = longest + 3 + r.Intn(40)
 	}
-	cs.clean = cs.weird == "" && cs.setup == 0
+	if cs.kind != "esc" && r.Chance(1, 3) {
+		cs.echoTail = r.Range(1, 2)
+	}
+	cs.clean = cs.weird == "" && (cs.setup == 0 || c12staleOK(cs))
 	for _, e := range cs.events {
 		if strings.HasSuffix(e.ask, ")?") || e.hidden && !e.devHidden {
 			cs.clean = false
@@ -468,6 +474,44 @@ func c12levels() map[string]*network.PrivilegeLevel {
 
 // operations that are expected to run into their timeout get a short one; all others a generous
 // one (a 1-byte segmentation at a 250 µs read delay needs tens of milliseconds per dialogue)
+// c12subseq: in-order subsequence (the specification of the fuzzy echo matcher).
+func c12subseq(in, out string) bool {
+	i := 0
+	for j := 0; j < len(out) && i < len(in); j++ {
+		if in[i] == out[j] {
+			i++
+		}
+	}
+	return i == len(in)
+}
+
+// c12staleOK: a session that starts with the login prompt still in the queue is nevertheless
+// in-domain when its first input's echo is awaited (the echo read swallows the stale bytes) and
+// the input is not already an in-order subsequence of the stale bytes plus a proper prefix of the
+// echo (so the echo read of a conforming implementation ends exactly at the end of the echo).
+func c12staleOK(cs c12case) bool {
+	if cs.wrap != 0 || cs.exact {
+		return false
+	}
+	var first string
+	switch cs.kind {
+	case "send":
+		first = cs.cmd
+	case "inter":
+		if cs.events[0].resp < 0 || cs.events[0].hidden {
+			return false
+		}
+		first = cs.events[0].input
+	default:
+		return false
+	}
+	if first == "" {
+		return false
+	}
+	stale := cs.host + "#\n" + cs.host + "#"
+	return !c12subseq(first, stale+first[:len(first)-1])
+}
+
 // c12hold is how long a device keeps back the rest of its reaction after a status line: long
 // against the read delay (an implementation that stops at the status line types ahead well within
 // it), short against the operation timeout
@@ -516,6 +560,7 @@ func runC12case(cs c12case) (o c12obs) {
 		dev := sim.NewDialogue("exec", prompts, script)
 		dev.NL = cs.nl
 		dev.EchoWrap = cs.wrap
+		dev.EchoTail, dev.EchoHold = cs.echoTail, c12hold
 		dev.Seg = c12seg(cs)
 		dev.ReadPause = time.Duration(cs.pauseUs) * time.Microsecond
 		if cs.setup != 0 {
@@ -975,6 +1020,9 @@ func c12check(c *ctx, cases []c12case) {
 		}
 		res.TracesVsImpl++
 		res.Count(fmt.Sprintf("dom:%v", allDom))
+		if cs.echoTail > 0 {
+			res.Count(fmt.Sprintf("echo-tail-held setup=%d dom:%v clean:%v", cs.setup, allDom, cs.clean))
+		}
 		if cs.statusLine {
 			res.Count(fmt.Sprintf("status-line/detour kind=%s outcome=%s dom:%v", cs.kind, cs.outcome, allDom))
 		}
